@@ -234,6 +234,8 @@ pub(crate) enum BlockContent<'a> {
 // it pretends to be an Iter, but it really isn't
 impl<'a> TokenIter<'a> {
     fn next(&mut self) -> Option<&'a A2lToken> {
+        #[cfg(a2lfile_verif)]
+        crate::verif_hooks::tick();
         if self.pos < self.tokens.len() {
             let item = &self.tokens[self.pos];
             self.pos += 1;
@@ -244,6 +246,8 @@ impl<'a> TokenIter<'a> {
     }
 
     fn peek(&mut self) -> Option<&'a A2lToken> {
+        #[cfg(a2lfile_verif)]
+        crate::verif_hooks::tick();
         if self.pos < self.tokens.len() {
             let item = &self.tokens[self.pos];
             Some(item)
@@ -389,6 +393,8 @@ impl<'a> ParserState<'a> {
     }
 
     pub(crate) fn set_tokenpos(&mut self, newpos: usize) {
+        #[cfg(a2lfile_verif)]
+        crate::verif_hooks::tick();
         self.token_cursor.pos = newpos;
     }
 
